@@ -146,6 +146,29 @@ func IsSym(x any) bool { return false }
 func Freeze(x any) {}
 func Thaw()        {}
 
+// EagerIterator is the engine's model of go-intervals' mapperToIterator (a
+// generator goroutine feeding a channel): the enumeration is run to completion
+// and an iterator over the collected values is returned; cancel is a no-op.
+// Equivalent for the side-effect-free enumerations it is used with
+// (Set.IntervalsBetween). Never called natively.
+func EagerIterator(m func(func(interface{}) bool)) (func() (interface{}, bool), func()) {
+	var vals []interface{}
+	m(func(obj interface{}) bool {
+		vals = append(vals, obj)
+		return true
+	})
+	i := 0
+	return func() (interface{}, bool) {
+			if i >= len(vals) {
+				return nil, false
+			}
+			v := vals[i]
+			i++
+			return v, true
+		}, func() {
+		}
+}
+
 // RunReplay is called from the generated test: it loads the case named by
 // $VERIF_REPLAY and runs the harness function natively on the model.
 func RunReplay(funcs map[string]func()) {
